@@ -30,7 +30,7 @@ def main():
                 pass
         out["history"] = hist
         v1, v2 = sh.vectors(), sh.fresh().vectors()
-        out["shared_differs"] = [nm for nm, a, b in zip(("img", "vec", "tree", "q"), v1, v2) if a != b]
+        out["shared_differs"] = [nm for nm, a, b in zip(("img", "vec", "tree", "q", "sym", "symarg"), v1, v2) if a != b]
     out["battery"] = c12.jsonable(c12.battery())
     print(json.dumps(out))
 
